@@ -38,11 +38,12 @@ var hostileLinks = []string{
 	"</a>; rel=\"preload\\", ",", ",,,", " , <", "</a>,>,<", "<" + strings.Repeat("a", 5000) + ">", strings.Repeat("<", 300), strings.Repeat(">", 300),
 	"</a>; " + strings.Repeat("k=v;", 500), "\t<\t/a\t>\t", "<//evil.test/x>; rel=preload", "<http://evil.test/x>", "< >", "<\x00>",
 	// quoted parameter values: legal ones with the list and parameter separators inside, and broken ones
+	"<http://[::1/app.js>; rel=preload", "<HTTP://%zz/x>; rel=preload", "<http://a b/x>; rel=preload", "<https://cdn.test:99999999/x>; rel=preload", "<://x>; rel=preload",
 	"</style.css>; rel=preload; title=\", main\"", "</a.css>; rel=\"preload\"; as=\"style\"", "</a>; as=\"", "</a>; x=\"\"", "</a>; x=\"\\\"\"", "</a>; title=\"a;b\"; rel=preload", "</a>; \"=\"", "\"", "</a>;\"",
 }
 
 // linkTokens: what Link headers are made of; genLink strings a few of them together at random.
-var linkTokens = []string{"<", ">", ";", ",", "=", "\"", " ", "/a.css", "/b.js", "rel", "preload", "as", "style", "script", "nopush", "title", "\\", "\t", "x", "<>", "; ", ", ", "=\"", "\";"}
+var linkTokens = []string{"http://", "://", "[", "%zz", "<", ">", ";", ",", "=", "\"", " ", "/a.css", "/b.js", "rel", "preload", "as", "style", "script", "nopush", "title", "\\", "\t", "x", "<>", "; ", ", ", "=\"", "\";"}
 
 func genLink(st *sim.Stream) string {
 	var b strings.Builder
